@@ -49,6 +49,38 @@ Proof.
 Qed.
 
 (* the offered connection sets are exactly the images of the valid matrices of the present connectors *)
+Lemma fold_min_le : forall t x y, In y (x :: t) -> (fold_right Nat.min x t <= y)%nat.
+Proof.
+  induction t as [|a t IH]; intros x y Hy; simpl in *.
+  - destruct Hy as [->|[]]. lia.
+  - destruct Hy as [->|[->|Hy]].
+    + specialize (IH y y (or_introl eq_refl)). lia.
+    + lia.
+    + specialize (IH x y (or_intror Hy)). lia.
+Qed.
+
+Lemma list_min_le l y : In y l -> (list_min l <= y)%nat.
+Proof. destruct l as [|x t]; [intros []|]. unfold list_min. apply fold_min_le. Qed.
+
+(* with or without open-ended members: a grouping connector accepts every sum of degrees its present members accept *)
+Theorem combined_accepts_sums ms ds :
+  Forall2 (fun x m => deg_ok m x = true) ds ms -> deg_ok (combined ms) (sumn ds) = true.
+Proof.
+  intros Hf. unfold combined.
+  destruct (existsb (fun m => match c_list m with None => true | Some _ => false end) ms) eqn:E.
+  - unfold deg_ok. simpl. apply Nat.leb_le. clear E.
+    induction Hf as [|x m ds' ms' Hx Hf' IH]; simpl; [lia|].
+    assert (Hm : (match c_list m with None => c_min m | Some l => list_min l end <= x)%nat).
+    { unfold deg_ok in Hx. destruct (c_list m) as [l|].
+      - apply list_min_le, memn_In, Hx.
+      - apply Nat.leb_le, Hx. }
+    lia.
+  - unfold deg_ok. simpl. rewrite memn_In, dedup_nat_In, sums_spec. exists ds. split; [|reflexivity].
+    induction Hf as [|x m ds' ms' Hx Hf' IH]; simpl; [constructor|].
+    simpl in E. apply orb_false_iff in E. destruct E as [Em Et]. constructor; [|apply IH, Et].
+    unfold deg_ok in Hx. destruct (c_list m) as [l|]; [apply memn_In, Hx|discriminate].
+Qed.
+
 Theorem conn_sets_exact specs I cc es :
   In es (conn_sets specs I cc) <->
   let '(s, sids, tids) := settings_for specs I cc in
